@@ -34,3 +34,9 @@ void check_history(History const& h,
 //! Shape hash (sequence of per-step population changes) and triviality
 void history_shape(History const& h, RunResult& out);
 }  // namespace vsim
+
+namespace vsim
+{
+//! C17 tallies: SimpleCalo / ActionDiagnostic / StepDiagnostic vs history
+void check_tallies(History const& h, Problem const& prob, RunResult& out);
+}
